@@ -474,7 +474,7 @@ def run(ctx):
     nbad += cfg_checks(ctx, binp, spans)
     if not getattr(ctx, "replay", None):
         json_float_checks(ctx, binp)
-    if (not proved or nbad) and not any(v["found_input"] for v in ctx.violations):
+    if (not proved or nbad) and not cc.unknown_failing_input(ctx):
         ctx.log("S5 deep search for a failing input (proof obligations / correspondence are broken)")
         save = ctx.tier
         ctx.tier = "thorough"
